@@ -59,6 +59,8 @@ LoadFails(e) ==
   \cup (IF On("C14") THEN F(\A i \in 1..nnew : e.new[i].err = 1 => e.new[i].msg = 1, "C14.itemmsg") ELSE {})
   \cup (IF On("C16") THEN
         F(e.retnull = 0 => e.ids = Ids(old) \o [i \in 1..nnew |-> nextId + i - 1], "C16.append")
+        \* ... one item per element of the document, whatever state the keyring was in (an earlier failed load included)
+        \cup F((e.retnull = 0 /\ e.doc \in {"keys", "keysextra", "single", "toparray", "jsonother"}) => nnew = DocItemCount(e.doc, nk), "C16.append-all")
         \cup F(e.retnull = 0 => e.count = Len(old) + nnew, "C16.count")
         \cup F(e.retnull = 0 => e.errany = e.seterr + BadCount(old) + Cardinality({i \in 1..nnew : e.new[i].err = 1}), "C16.errany")
         ELSE {})
@@ -187,6 +189,7 @@ VerifyFails(e) ==
   \cup (IF On("C11") THEN F(P_FullV(ref, e.ret), "C11.token") ELSE {})       \* the codec as the token parser uses it
   \cup (IF On("C09") THEN F(P_C09(ck, pt, cb, sok, now, ops, e.ret), "C09.verify") ELSE {})
   \cup (IF On("C13") /\ Has(e, "fresh") THEN F((e.ret = 0) <=> (e.fresh.ret = 0), "C13.verify") ELSE {})
+  \cup (IF On("C13") THEN F(P_FullV(ref, e.ret), "C13.function") ELSE {})      \* the verdict is THE function of configuration, token and clock
   \cup (IF On("C14") THEN F(P_C14v(e.ret, e.err, e.msg), "C14.verify") ELSE {})
   \cup (IF On("C19") THEN
           F(cb.ret # 0 => e.ret # 0, "C19.cbret")
@@ -338,6 +341,8 @@ FaultFails(e) ==
 (***************************************************************************)
 (* dispatch                                                                *)
 (***************************************************************************)
+\* an RSA key file is either rsaEncryption or id-RSASSA-PSS; "the identical key" is of the same type
+SameRsaType(e, imp) == (e.kty = "RSA" /\ Has(imp.mat, "pss")) => (imp.mat.pss = 1 <=> e.base \in PssBases)
 LeakProps == {"C06", "C07", "C16", "C17", "C11", "FULL"}
 IsOpEvent(e) == e.e \notin {"Case", "EndCase", "End", "Abort", "FaultRun", "FaultEnd"}
 Fails(e) == (IF IsOpEvent(e) THEN FaultFails(e) ELSE {}) \cup
@@ -352,11 +357,11 @@ Fails(e) == (IF IsOpEvent(e) THEN FaultFails(e) ELSE {}) \cup
          IF ~On("C20") THEN {}
          ELSE F(e.exit1 = 0 /\ e.nkeys1 = 1, "C20.key2jwk-exit")
               \cup (IF e.exit1 # 0 \/ e.nkeys1 # 1 THEN {} ELSE
-                      F(P_SameKey(e.imp, e.kty, e.bits, e.priv), "C20.key2jwk-samekey")
+                      F(P_SameKey(e.imp, e.kty, e.bits, e.priv) /\ SameRsaType(e, e.imp), "C20.key2jwk-samekey")
                       \cup (IF e.kty = "EC" THEN F(P_EcWidths(e.bits, e.priv, e.xlen, e.ylen, e.dlen), "C20.ec-width") ELSE {})
                       \cup F(e.exit2 = 0 /\ e.nfiles = 1, "C20.jwk2key-exit")
                       \cup (IF e.exit2 # 0 \/ e.nfiles # 1 \/ e.exit3 # 0 THEN F(e.exit3 = 0, "C20.jwk2key-output")
-                            ELSE F(P_SameKey(e.imp2, e.kty, e.bits, e.priv), "C20.jwk2key-samekey")))
+                            ELSE F(P_SameKey(e.imp2, e.kty, e.bits, e.priv) /\ SameRsaType(e, e.imp2), "C20.jwk2key-samekey")))
     [] e.e = "ToolKeyConvMulti" ->
          IF ~On("C20") THEN {}
          ELSE F(e.exit1 = 0 /\ e.nkeys1 = e.n /\ Len(e.imps) = e.n, "C20.key2jwk-multi-exit")
@@ -365,7 +370,10 @@ Fails(e) == (IF IsOpEvent(e) THEN FaultFails(e) ELSE {}) \cup
     [] e.e = "Thread" -> IF On("C18") THEN F(e.seq = e.par, "C18.results") ELSE {}
     [] e.e = "Codec" -> CodecFails(e)
     [] e.e = "CodecBatch" -> CodecBatchFails(e)
-    [] e.e = "EndCase" -> IF Has(e, "leak") /\ Prop \in LeakProps THEN F(e.leak = 0, Prop \o ".leak") ELSE {}
+    [] e.e = "EndCase" -> (IF Has(e, "leak") /\ Prop \in LeakProps THEN F(e.leak = 0, Prop \o ".leak") ELSE {})
+                          \* descriptors are a resource like memory: when every object of the case has been
+                          \* freed the process holds the descriptors it held when the case began
+                          \cup (IF Has(e, "fd") /\ Prop \in LeakProps THEN F(e.fd = 0, Prop \o ".fdleak") ELSE {})
     [] e.e = "End" -> IF Has(e, "leak") /\ Prop \in LeakProps THEN F(e.leak = 0, Prop \o ".leak") ELSE {}
     [] e.e = "Abort" -> {"abort." \o e.why}
     [] OTHER -> ConfigFails(e)
